@@ -441,8 +441,8 @@ fn host_info(text: &str) -> HostInfo {
 
 const SCHEMES_Q: [&str; 7] = ["http", "https", "ws", "wss", "ftp", "data", "HTTP"];
 const SCHEMES_T: [&str; 11] = ["http", "https", "ws", "wss", "ftp", "data", "HTTP", "Wss", "x", "chrome-extension", "h2+a.b"];
-const SLASHES_Q: [&str; 2] = ["://", ":"];
-const SLASHES_T: [&str; 5] = ["://", ":", ":/", ":////", ":/\\"];
+const SLASHES_Q: [&str; 4] = ["://", ":", ":/", ":/\\"];
+const SLASHES_T: [&str; 7] = ["://", ":", ":/", ":///", ":////", ":/\\", ":\\\\"];
 const USERINFO_Q: [&str; 4] = ["", "u@", "u:p@", "a.b@"];
 const USERINFO_T: [&str; 10] = ["", "u@", "u:p@", "a.b@", "@", "u:@", ":p@", "é@", "u@v@", "u\t@"];
 const PORTS_Q: [&str; 2] = ["", ":8080"];
